@@ -164,11 +164,7 @@ func GenWorld(r *hk.Rand, b *B, big bool) {
 		}
 	}
 	// declare Corpus.PermanodeTime where the world gives one (camliContent)
-	for _, pn := range pns {
-		if t := expectPermanodeTime(b.MW, pn); t != 0 {
-			b.CTime(pn, t)
-		}
-	}
+	b.SyncCTimes()
 }
 
 func boolInt(b bool) int {
@@ -798,4 +794,96 @@ func GenFocusCons(r *hk.Rand, w *MWorld, focus string) *Cons {
 		return &Cons{Dir: d}
 	}
 	return g.cons(2, "", false)
+}
+
+// ---- arrivals between queries: the corpus keeps receiving blobs ----
+
+type pendingFile struct {
+	spec  fileSpec
+	mtime int64
+}
+
+// Arrivals is the state of the arrival phases of one world.
+type Arrivals struct {
+	pending []pendingFile
+	npn     int
+}
+
+// GenArrivals lets a few more blobs arrive in a world that has already been queried: the content
+// files that earlier camliContent claims announced (a permanode's creation time changes although
+// no claim arrives), new attribute claims, camliContent claims naming an existing file or one that
+// is not there yet, deletions and new permanodes. hit records what arrived.
+func GenArrivals(r *hk.Rand, b *B, a *Arrivals, hit func(string)) {
+	for _, p := range a.pending {
+		by := b.Bytes(p.spec.content)
+		b.File(p.spec.name, by, p.mtime, p.spec.mime)
+		hit("arrival:late-content-file")
+	}
+	a.pending = nil
+	n := 1 + r.Intn(4)
+	for i := 0; i < n; i++ {
+		pns := b.MW.PNs
+		k := r.Intn(10)
+		if len(pns) == 0 {
+			k = 7
+		}
+		switch k {
+		case 0, 1:
+			b.Claim(pns[r.Intn(len(pns))], r.Pick([]string{"add", "set"}), "tag", tagVals[r.Intn(len(tagVals))], b.LastDate+1+int64(r.Intn(2)))
+			hit("arrival:attr-claim")
+		case 2, 3, 4:
+			// camliContent naming a file that has not arrived yet
+			var free []fileSpec
+			for _, fs := range fileSpecs {
+				_, whole := PlanFile(fs.name, fs.content, 0)
+				if _, ok := b.MW.bytesLen[whole]; !ok {
+					dup := false
+					for _, p := range a.pending {
+						dup = dup || p.spec.content == fs.content
+					}
+					if !dup {
+						free = append(free, fs)
+					}
+				}
+			}
+			if len(free) == 0 {
+				continue
+			}
+			fs := free[r.Intn(len(free))]
+			mtime := int64(1300000000 + 500*r.Intn(12) + 1)
+			ref, _ := PlanFile(fs.name, fs.content, mtime)
+			b.Claim(pns[r.Intn(len(pns))], "set", "camliContent", ref, b.LastDate+1)
+			a.pending = append(a.pending, pendingFile{fs, mtime})
+			hit("arrival:camliContent-before-file")
+		case 5:
+			var files []string
+			for _, f := range b.MW.Files {
+				if !f.IsDir {
+					files = append(files, f.Ref)
+				}
+			}
+			if len(files) == 0 {
+				continue
+			}
+			b.Claim(pns[r.Intn(len(pns))], "set", "camliContent", files[r.Intn(len(files))], b.LastDate+1)
+			hit("arrival:camliContent-existing-file")
+		case 6:
+			pn := pns[r.Intn(len(pns))]
+			if !b.MW.IsDeleted(pn) {
+				b.Delete(pn, b.LastDate+1)
+				hit("arrival:delete")
+			}
+		case 7:
+			a.npn++
+			pn := b.PN(fmt.Sprintf("late%d", a.npn))
+			if r.Chance(75) {
+				b.Claim(pn, "add", "tag", tagVals[r.Intn(len(tagVals))], b.LastDate+1)
+			}
+			hit("arrival:permanode")
+		case 8, 9:
+			b.Claim(pns[r.Intn(len(pns))], "add", "camliMember", pns[r.Intn(len(pns))], b.LastDate+1)
+			hit("arrival:member-claim")
+		}
+	}
+	b.SyncCTimes()
 }
